@@ -58,7 +58,11 @@ pub fn rand_partition(r: &mut Rng, len: usize, fm: usize, allow_empty: bool) -> 
         v.push(n);
         left -= n;
         if v.len() > 3000 {
-            v.push(left);
+            // (never a trailing empty frame: a frame after the body is complete is a
+            // protocol violation of the server's, not a partition of the body)
+            if left > 0 {
+                v.push(left);
+            }
             break;
         }
     }
@@ -440,7 +444,24 @@ fn e2e_case(r: &mut Rng, allow_empty_frames: bool, res: &mut CaseResult) {
         }
     }
     let t = run::spawn("close", move || conn.close());
-    let _ = t.join(W);
+    match t.join(W) {
+        J::Done(Ok(())) => {}
+        // (said last so that a more specific finding above stays the headline; as `violate`
+        // keeps the first report this one only shows when nothing else was found)
+        J::Done(Err(e)) => {
+            if std::env::var("VERIF_DEBUG").is_ok() {
+                eprintln!("DEBUG close = {}", ek(&e));
+            }
+            res.violate("connection_died", format!("Connection::close() = {} ({} channels, segmentation {})", ek(&e), nch, seg_desc))
+        }
+        _ => res.violate("no_progress", "Connection::close did not return".to_string()),
+    }
+    if let Ok(path) = std::env::var("VERIF_DEBUG") {
+        let _ = std::fs::write(&path, h.peek(|st| st.in_log.clone()));
+    }
+    if std::env::var("VERIF_DEBUG").is_ok() {
+        eprintln!("DEBUG close done; plans: {:?}", plans.iter().map(|p| (p.consumers, p.gets.iter().map(|g| g.as_ref().map(|(m, part)| (m.body.len(), part.clone()))).collect::<Vec<_>>())).collect::<Vec<_>>());
+    }
     for p in run::io_panics(&run::take_panics()) {
         res.violate("panic", format!("I/O thread: {} at {}", p.msg, p.loc));
     }
